@@ -11,7 +11,8 @@ u64, u128, [u64;4], [u64;8]) and every len in 0..=4096 plus a few large ones, fo
 len()/as_slice().len() == len, as_slice().as_ptr() % 64 == 0, every byte zero, allocated_size() >= len and \
 allocated_size()*size_of::<T>() a multiple of 64, a position pattern written through as_mut_slice is read back \
 through as_slice and Deref, copy_from_slice round trip, as_mut_ptr == as_slice().as_ptr(), clone is deep (same \
-len/contents/alignment, distinct storage, mutating either side leaves the other unchanged). distinct = hash set \
+len/contents/alignment, distinct storage, mutating either side leaves the other unchanged), and so is \
+Clone::clone_from into targets of length 0, len/2, len, len+1, 2*len+65. distinct = hash set \
 over (T, len); non-trivial = len > 0.";
 
 pub trait BElem: Copy + PartialEq + std::fmt::Debug + 'static {
@@ -90,7 +91,7 @@ impl Case for BCase {
         h
     }
     fn calls(&self) -> u64 {
-        3 // zeroed, clone, zeroed (plus the accessor calls on them)
+        13 // zeroed, clone, 5 x (zeroed, clone_from), zeroed (plus the accessor calls on them)
     }
     fn shrink(&self) -> Vec<Self> {
         let mut v = Vec::new();
@@ -248,6 +249,55 @@ fn protocol<X: BElem>(len: usize) -> Verdict {
                 format!("clone[{i}] unchanged after mutating the original"),
                 format!("{:?}", cl.as_slice()[i]),
             );
+        }
+        // `Clone::clone_from` is the other way to obtain a clone: into targets shorter than, as long as and longer than
+        // the source, the target must become an independent deep copy of the source
+        let src_now: Vec<X> = buf.as_slice().to_vec();
+        for tlen in [0usize, len / 2, len, len + 1, 2 * len + 65] {
+            let mut t: AlignedBuffer<X> = unsafe { AlignedBuffer::<X>::zeroed(tlen) };
+            for (i, x) in t.as_mut_slice().iter_mut().enumerate() {
+                *x = X::pat(i, 4);
+            }
+            t.clone_from(&buf);
+            let tp = t.as_slice().as_ptr() as usize;
+            if t.len() != len || t.as_slice().len() != len {
+                return bad(
+                    "clone",
+                    format!("after zeroed({tlen}).clone_from(&source): len() == {len}"),
+                    format!("len() = {}, as_slice().len() = {}", t.len(), t.as_slice().len()),
+                );
+            }
+            if t.allocated_size() < len || (t.allocated_size() * size) % 64 != 0 {
+                return bad(
+                    "clone",
+                    format!("after zeroed({tlen}).clone_from(&source): allocated_size() >= {len} and a whole number of chunks"),
+                    format!("{}", t.allocated_size()),
+                );
+            }
+            if tp % 64 != 0 || (len > 0 && tp == buf.as_slice().as_ptr() as usize) {
+                return bad(
+                    "clone",
+                    format!("after zeroed({tlen}).clone_from(&source): own 64-byte aligned storage"),
+                    format!("address {tp:#x}"),
+                );
+            }
+            if let Some(i) = (0..len).find(|&i| t.as_slice()[i] != src_now[i]) {
+                return bad(
+                    "clone",
+                    format!("after zeroed({tlen}).clone_from(&source): element {i} == source"),
+                    format!("{:?}", t.as_slice()[i]),
+                );
+            }
+            for (i, x) in t.as_mut_slice().iter_mut().enumerate() {
+                *x = X::pat(i, 5);
+            }
+            if let Some(i) = (0..len).find(|&i| buf.as_slice()[i] != src_now[i]) {
+                return bad(
+                    "clone",
+                    format!("source[{i}] unchanged after mutating the clone_from target"),
+                    format!("{:?}", buf.as_slice()[i]),
+                );
+            }
         }
         // the slack up to allocated_size must be addressable storage owned by the buffer:
         // a second zeroed buffer must still be all zero (no aliasing with the first)
